@@ -254,6 +254,30 @@ example : (runInitsG ["2025-06-18", "2024-11-05"] []
       [(.str "2024-11-05", none, ""), (.str "2025-06-18", none, ""), (.str "1999-01-01", some 0, "2024-11-05")]).1
     = [("2024-11-05", some "2024-11-05"), ("2025-06-18", some "2025-06-18"), ("2024-11-05", some "2024-11-05")] := by decide
 
+/-- Handlers are independent: with any number of handlers alive in one process and their requests
+interleaved in any order, what one handler answers and records is what it would answer and record
+if it were alone with its own requests. -/
+theorem c04_handlers_independent (sup : List String) (stores : Nat → List String)
+    (steps : List (Nat × InitStepG)) (h : Nat) :
+    ((runHandlers sup stores steps).filter (fun x => x.1 = h)).map (·.2)
+      = (runInitsG sup (stores h) ((steps.filter (fun x => x.1 = h)).map (·.2))).1 := by
+  induction steps generalizing stores with
+  | nil => simp [runHandlers, runInitsG]
+  | cons x rest ih =>
+    obtain ⟨k, r, carry, choice⟩ := x
+    by_cases hk : k = h
+    · subst hk
+      simp only [runHandlers, List.filter_cons, decide_true, if_true, List.map_cons, runInitsG, ih]
+    · have hk' : ¬ h = k := fun e => hk e.symm
+      simp only [runHandlers, List.filter_cons, hk, decide_false, Bool.false_eq_true, if_false]
+      rw [ih]
+      simp [hk']
+
+example : runHandlers ["2025-06-18", "2024-11-05"] (fun _ => [])
+      [(0, .str "2024-11-05", none, ""), (1, .str "1999-01-01", none, ""), (0, .str "2025-06-18", some 0, "")]
+    = [(0, "2024-11-05", some "2024-11-05"), (1, "2025-06-18", some "2025-06-18"), (0, "2025-06-18", some "2025-06-18")] := by
+  decide
+
 /-- Handshake, whatever the server's choice: agreed on a version both support (recorded by the
 session), or mismatch without the notification. -/
 theorem c04_handshake_sound_any_choice (c : List String) (pref : Option String) (s : List String)
